@@ -34,7 +34,7 @@ def table_rule(ctx, key, path, atoms, spec, abbr=(), outcome=None, skip=None):
     w = ctx.walk(b)
     if w.truncated:
         return [bad(key + "|truncated", "path enumeration of %s exceeded its bound" % path, b.loc())]
-    return check_table(key, b, w.paths, atoms, spec, outcome or (lambda p: ret(p, abbr)), abbr, skip)
+    return check_table(key, b, w.paths_split, atoms, spec, outcome or (lambda p: ret(p, abbr)), abbr, skip)
 
 
 @rule("LEAF-BOL", ["C12", "C01"], floor=5)
@@ -260,7 +260,7 @@ def eqcase_table(ctx):
     w = ctx.walk(b)
     out = []
     fold_atoms = set()
-    for p in w.paths:
+    for p in w.paths_split:
         for a, o in p.guards:
             s = show(a)
             if "CaseMapper::" in s:
@@ -279,7 +279,7 @@ def eqcase_table(ctx):
     def spec(v):
         return "true" if v["same"] or v["folded"] else "false"
 
-    return out + check_table("equal_case_blind", b, w.paths, atoms, spec, lambda p: ret(p))
+    return out + check_table("equal_case_blind", b, w.paths_split, atoms, spec, lambda p: ret(p))
 
 
 @rule("CHECK-TABLE", ["C16"], floor=2)
